@@ -25,7 +25,8 @@ theorem getPlan_mem {s : State} {id : Nat} {p : Plan} (h : getPlan s id = some p
   | some a => simp only [ha] at h; left; exact h
   | none => simp only [ha] at h; right; exact h
 
-structure MoneyInv (s : State) : Prop where
+/-- `σ` is the supply table the state must have: a step that preserves `MoneyInv σ` neither mints nor burns. -/
+structure MoneyInv (σ : Tbl Denom Int) (s : State) : Prop where
   backed : Backed s
   depNodup : Tbl.Nodup s.deposits
   depNonneg : ∀ a cs, s.deposits.get a = some cs → Coins.Nonneg cs
@@ -33,5 +34,6 @@ structure MoneyInv (s : State) : Prop where
   supplyOK : SupplyOK s
   /-- no plan's provider is the escrow account (providers register by signing, D2) -/
   provOK : ∀ id p, (s.planActive.get id = some p ∨ s.planInactive.get id = some p) → p.prov ≠ depositAddr
+  supplyEq : s.supply = σ
 
 end Hub.Model
